@@ -64,146 +64,175 @@ void enumerate(const char* op, F f, long& points) {
 }
 }  // namespace
 
+// Every family runs on a fresh qsbr_thread (the subject) while the main thread is QSBR-paused, so the subject
+// sees the same thread counts as a main thread would.  "Nothing leaked" is judged where it is decidable without
+// assumptions about buffers a live thread may legitimately keep (request vectors that retain their capacity,
+// pre-allocated list nodes): the heap bytes in use after the subject has exited and everything has been drained
+// must equal the bytes in use before it started (events "baseline" / "after").
+template <class F>
+void on_subject_thread(const char* family, F f) {
+  unodb::this_thread().qsbr_pause();
+  const long h0 = vh_live_bytes();
+  std::printf("{\"e\":\"baseline\",\"op\":\"%s\",\"heap\":%ld}\n", family, h0);
+  {
+    unodb::qsbr_thread subject{[&]() noexcept { f(); }};
+    subject.join();
+  }
+  unodb::this_thread().qsbr_resume();
+  unodb::this_thread().quiescent();
+  unodb::this_thread().quiescent();
+  unodb::this_thread().quiescent();
+  unodb::this_thread().qsbr_pause();
+  std::printf("{\"e\":\"after\",\"op\":\"%s\",\"heap\":%ld}\n", family, vh_live_bytes());
+  unodb::this_thread().qsbr_resume();
+}
+
 int main() {
+  std::setvbuf(stdout, nullptr, _IOLBF, 0);  // whole lines even if the process dies
   unodb::verif::g_hook.store(hook_cb);
   long points = 0;
   std::puts("{\"e\":\"reset\"}");
-  // --- qsbr_resume
-  for (int rep = 0; rep < 3; ++rep) {
-    unodb::this_thread().qsbr_pause();
-    std::printf("{\"e\":\"baseline\",\"op\":\"resume\",\"heap\":%ld}\n", vh_live_bytes());
-    enumerate("resume", [] { unodb::this_thread().qsbr_resume(); }, points);
-    unodb::this_thread().quiescent();
-  }
-  // --- thread start
-  for (int rep = 0; rep < 3; ++rep) {
-    unodb::qsbr_thread second;
-    std::atomic<bool> go{false};
-    std::printf("{\"e\":\"baseline\",\"op\":\"start\",\"heap\":%ld}\n", vh_live_bytes());
-    enumerate("start", [&] { second = unodb::qsbr_thread{[&go]() noexcept { while (!go.load()) std::this_thread::yield(); }}; }, points);
-    go.store(true);
-    second.join();
-    unodb::this_thread().quiescent();
-    unodb::this_thread().quiescent();
-  }
-  // --- deferred deallocation with two registered threads
-  for (int rep = 0; rep < 4; ++rep) {
-    std::printf("{\"e\":\"baseline\",\"op\":\"retire\",\"heap\":%ld}\n", vh_live_bytes());
-    std::atomic<bool> go{false}, up{false};
-    unodb::qsbr_thread second{[&]() noexcept {
-      up.store(true);
-      while (!go.load()) std::this_thread::yield();
+  on_subject_thread("resume", [&] {
+    // --- qsbr_resume
+    for (int rep = 0; rep < 3; ++rep) {
+      unodb::this_thread().qsbr_pause();
+      enumerate("resume", [] { unodb::this_thread().qsbr_resume(); }, points);
       unodb::this_thread().quiescent();
-    }};
-    while (!up.load()) std::this_thread::yield();
-    // fill the request vector so that different calls meet different capacities
-    for (int pre = 0; pre < rep; ++pre) {
-      void* p = unodb::detail::allocate_aligned(32);
-      unodb::this_thread().on_next_epoch_deallocate(p
-#ifdef UNODB_DETAIL_WITH_STATS
-                                                    , 32
-#endif
-#ifndef NDEBUG
-                                                    , nullptr
-#endif
-      );
     }
-    g_block = unodb::detail::allocate_aligned(64);
-    g_block_live = true;
-    enumerate("retire", [] {
-      unodb::this_thread().on_next_epoch_deallocate(g_block
-#ifdef UNODB_DETAIL_WITH_STATS
-                                                    , 64
-#endif
-#ifndef NDEBUG
-                                                    , nullptr
-#endif
-      );
-    }, points);
-    go.store(true);
-    second.join();
-    unodb::this_thread().quiescent();
-    unodb::this_thread().quiescent();
-    unodb::this_thread().quiescent();
-    std::printf("{\"e\":\"drained\",\"live\":%d}\n", g_block_live ? 1 : 0);
-    g_block = nullptr;
-  }
-  // --- deferred deallocation by a thread that lags behind the global epoch (the other thread changed the epoch
-  // after this thread's last quiescent state): the call rotates the thread's own request lists, which hold
-  // `pre` requests of the interval that just ended (seed c08c: an allocation after the request was recorded)
-  for (int pre = 0; pre < 5; ++pre) {
-    std::printf("{\"e\":\"baseline\",\"op\":\"retire_lagging\",\"heap\":%ld}\n", vh_live_bytes());
-    std::atomic<int> cmd{0}, done{0};
-    unodb::qsbr_thread second{[&]() noexcept {
-      int served = 0;
-      while (true) {
-        const int c = cmd.load();
-        if (c == served) {
-          std::this_thread::yield();
-          continue;
-        }
-        if (c < 0) break;
+  });
+  on_subject_thread("start", [&] {
+    // --- thread start
+    for (int rep = 0; rep < 3; ++rep) {
+      unodb::qsbr_thread second;
+      std::atomic<bool> go{false};
+      enumerate("start", [&] { second = unodb::qsbr_thread{[&go]() noexcept { while (!go.load()) std::this_thread::yield(); }}; }, points);
+      go.store(true);
+      second.join();
+      unodb::this_thread().quiescent();
+      unodb::this_thread().quiescent();
+    }
+  });
+  on_subject_thread("retire", [&] {
+    // --- deferred deallocation with two registered threads
+    for (int rep = 0; rep < 4; ++rep) {
+      std::atomic<bool> go{false}, up{false};
+      unodb::qsbr_thread second{[&]() noexcept {
+        up.store(true);
+        while (!go.load()) std::this_thread::yield();
         unodb::this_thread().quiescent();
-        served = c;
-        done.store(c);
+      }};
+      while (!up.load()) std::this_thread::yield();
+      // fill the request vector so that different calls meet different capacities
+      for (int pre = 0; pre < rep; ++pre) {
+        void* p = unodb::detail::allocate_aligned(32);
+        unodb::this_thread().on_next_epoch_deallocate(p
+  #ifdef UNODB_DETAIL_WITH_STATS
+                                                      , 32
+  #endif
+  #ifndef NDEBUG
+                                                      , nullptr
+  #endif
+        );
       }
-    }};
-    auto helper_quiescent = [&](int n) {
-      cmd.store(n);
-      while (done.load() != n) std::this_thread::yield();
-    };
-    for (int i = 0; i < pre; ++i) {
-      void* p = unodb::detail::allocate_aligned(32);
-      unodb::this_thread().on_next_epoch_deallocate(p
-#ifdef UNODB_DETAIL_WITH_STATS
-                                                    , 32
-#endif
-#ifndef NDEBUG
-                                                    , nullptr
-#endif
-      );
+      g_block = unodb::detail::allocate_aligned(64);
+      g_block_live = true;
+      enumerate("retire", [] {
+        unodb::this_thread().on_next_epoch_deallocate(g_block
+  #ifdef UNODB_DETAIL_WITH_STATS
+                                                      , 64
+  #endif
+  #ifndef NDEBUG
+                                                      , nullptr
+  #endif
+        );
+      }, points);
+      go.store(true);
+      second.join();
+      unodb::this_thread().quiescent();
+      unodb::this_thread().quiescent();
+      unodb::this_thread().quiescent();
+      std::printf("{\"e\":\"drained\",\"live\":%d}\n", g_block_live ? 1 : 0);
+      g_block = nullptr;
     }
-    unodb::this_thread().quiescent();  // this thread is quiescent in epoch e ...
-    helper_quiescent(1);               // ... the helper is the last one: it changes the epoch to e + 1
-    g_block = unodb::detail::allocate_aligned(64);
-    g_block_live = true;
-    enumerate("retire_lagging", [] {
-      unodb::this_thread().on_next_epoch_deallocate(g_block
-#ifdef UNODB_DETAIL_WITH_STATS
-                                                    , 64
-#endif
-#ifndef NDEBUG
-                                                    , nullptr
-#endif
-      );
-    }, points);
-    cmd.store(-1);
-    second.join();
-    unodb::this_thread().quiescent();
-    unodb::this_thread().quiescent();
-    unodb::this_thread().quiescent();
-    std::printf("{\"e\":\"drained\",\"live\":%d}\n", g_block_live ? 1 : 0);
-    g_block = nullptr;
-  }
-  // --- single-thread mode: the request is executed at once
-  {
-    std::printf("{\"e\":\"baseline\",\"op\":\"retire_single\",\"heap\":%ld}\n", vh_live_bytes());
-    g_block = unodb::detail::allocate_aligned(64);
-    g_block_live = true;
-    enumerate("retire_single", [] {
-      unodb::this_thread().on_next_epoch_deallocate(g_block
-#ifdef UNODB_DETAIL_WITH_STATS
-                                                    , 64
-#endif
-#ifndef NDEBUG
-                                                    , nullptr
-#endif
-      );
-    }, points);
-    unodb::this_thread().quiescent();
-    std::printf("{\"e\":\"drained\",\"live\":%d}\n", g_block_live ? 1 : 0);
-    g_block = nullptr;
-  }
+  });
+  on_subject_thread("retire_lagging", [&] {
+    // --- deferred deallocation by a thread that lags behind the global epoch (the other thread changed the epoch
+    // after this thread's last quiescent state): the call rotates the thread's own request lists, which hold
+    // `pre` requests of the interval that just ended (seed c08c: an allocation after the request was recorded)
+    for (int pre = 0; pre < 5; ++pre) {
+      std::atomic<int> cmd{0}, done{0};
+      unodb::qsbr_thread second{[&]() noexcept {
+        int served = 0;
+        while (true) {
+          const int c = cmd.load();
+          if (c == served) {
+            std::this_thread::yield();
+            continue;
+          }
+          if (c < 0) break;
+          unodb::this_thread().quiescent();
+          served = c;
+          done.store(c);
+        }
+      }};
+      auto helper_quiescent = [&](int n) {
+        cmd.store(n);
+        while (done.load() != n) std::this_thread::yield();
+      };
+      for (int i = 0; i < pre; ++i) {
+        void* p = unodb::detail::allocate_aligned(32);
+        unodb::this_thread().on_next_epoch_deallocate(p
+  #ifdef UNODB_DETAIL_WITH_STATS
+                                                      , 32
+  #endif
+  #ifndef NDEBUG
+                                                      , nullptr
+  #endif
+        );
+      }
+      unodb::this_thread().quiescent();  // this thread is quiescent in epoch e ...
+      helper_quiescent(1);               // ... the helper is the last one: it changes the epoch to e + 1
+      g_block = unodb::detail::allocate_aligned(64);
+      g_block_live = true;
+      enumerate("retire_lagging", [] {
+        unodb::this_thread().on_next_epoch_deallocate(g_block
+  #ifdef UNODB_DETAIL_WITH_STATS
+                                                      , 64
+  #endif
+  #ifndef NDEBUG
+                                                      , nullptr
+  #endif
+        );
+      }, points);
+      cmd.store(-1);
+      second.join();
+      unodb::this_thread().quiescent();
+      unodb::this_thread().quiescent();
+      unodb::this_thread().quiescent();
+      std::printf("{\"e\":\"drained\",\"live\":%d}\n", g_block_live ? 1 : 0);
+      g_block = nullptr;
+    }
+  });
+  on_subject_thread("retire_single", [&] {
+    // --- single-thread mode: the request is executed at once
+    {
+      g_block = unodb::detail::allocate_aligned(64);
+      g_block_live = true;
+      enumerate("retire_single", [] {
+        unodb::this_thread().on_next_epoch_deallocate(g_block
+  #ifdef UNODB_DETAIL_WITH_STATS
+                                                      , 64
+  #endif
+  #ifndef NDEBUG
+                                                      , nullptr
+  #endif
+        );
+      }, points);
+      unodb::this_thread().quiescent();
+      std::printf("{\"e\":\"drained\",\"live\":%d}\n", g_block_live ? 1 : 0);
+      g_block = nullptr;
+    }
+  });
   std::printf("{\"e\":\"end\",\"points\":%ld}\n", points);
   return 0;
 }
